@@ -364,6 +364,12 @@ func checkDoc(c *hc.Ctx, fonts []*canvas.FontFamily, ref []*canvas.Font, spec do
 		fontRes, _ = pf.Dict(res["Font"])
 	}
 	infos := map[string]*fontInfo{}
+	// raw observation per font object for the Lean-side verdict (FV lines)
+	type codeObs struct{ adv, uni int }
+	fvObs := map[string]map[int]codeObs{}
+	fvUpm := map[string]int{}
+	fvSkip := map[string]bool{}
+	cffMapReported := map[string]bool{}
 	type gk struct {
 		name string
 		code int
@@ -477,9 +483,21 @@ func checkDoc(c *hc.Ctx, fonts []*canvas.FontFamily, ref []*canvas.Font, spec do
 				}
 				gid = int(fi.CIDToGID[code])
 			}
-			if spec.Subset == fi.HasMap {
-				fail("cidtogid-presence", fmt.Sprintf("subset=%v but CIDToGIDMap stream present=%v", spec.Subset, fi.HasMap))
+			// the CIDToGIDMap stream must be there exactly when the embedded program is the full font
+			// (SubsetFonts off, or a subsetting failure that fell back to the full program)
+			full := fi.Program.NumGlyphs() == src.NumGlyphs() && src.NumGlyphs() > 1
+			if fi.HasMap != full && resetClass == "" {
+				fail("cidtogid-presence", fmt.Sprintf("subset=%v, embedded program has %d of %d glyphs, CIDToGIDMap stream present=%v", spec.Subset, fi.Program.NumGlyphs(), src.NumGlyphs(), fi.HasMap))
 				return
+			}
+			if fi.HasMap && fi.Subtype != "CIDFontType2" && !cffMapReported[ob.fontName] {
+				// Table 117: CIDToGIDMap is "Type 2 CIDFonts only"; for a CIDFontType0 with a name-keyed CFF the
+				// CID is the glyph index (9.7.4.2), so a conforming reader ignores the stream
+				cffMapReported[ob.fontName] = true
+				cffGid := code
+				if why := compareGlyph(src, g.ID, fi.Program, cffGid); why != "" {
+					fail("glyph-mismatch:cidtogidmap-on-cidfonttype0", fmt.Sprintf("span %d glyph %d (source glyph %d %q): /Subtype /%s carries a CIDToGIDMap, which only applies to CIDFontType2; a conforming reader takes code %04X as glyph index %d of the embedded CFF: %s (with the stream applied it would be glyph %d)", i, k, g.ID, string(g.Text), fi.Subtype, code, cffGid, why, gid))
+				}
 			}
 			key := gk{ob.fontName, code, g.ID}
 			verdict, seen := outlineOK[key]
@@ -499,6 +517,21 @@ func checkDoc(c *hc.Ctx, fonts []*canvas.FontFamily, ref []*canvas.Font, spec do
 			}
 			// 2. width array
 			orig := int(src.GlyphAdvance(g.ID))
+			if resetClass != "" {
+				fvSkip[ob.fontName] = true
+			} else {
+				if fvObs[ob.fontName] == nil {
+					fvObs[ob.fontName] = map[int]codeObs{0: {int(src.GlyphAdvance(0)), -1}}
+					fvUpm[ob.fontName] = upm
+				}
+				u := -1
+				if g.ID != 0 {
+					if r := src.Cmap.ToUnicode(g.ID); r != 0 {
+						u = int(r)
+					}
+				}
+				fvObs[ob.fontName][code] = codeObs{orig, u}
+			}
 			wantW := (2000*orig + upm) / (2 * upm)
 			gotW := lookupW(fi.DW, fi.W, code)
 			if gotW != wantW {
@@ -556,6 +589,36 @@ func checkDoc(c *hc.Ctx, fonts []*canvas.FontFamily, ref []*canvas.Font, spec do
 				}
 			}
 		}
+	}
+	// Lean decides on the font tables from the raw observation (theorem C18.fontVerdict_sound)
+	names := make([]string, 0, len(fvObs))
+	for n := range fvObs {
+		names = append(names, n)
+	}
+	sort.Strings(names)
+	for _, n := range names {
+		obs, fi := fvObs[n], infos[n]
+		if fvSkip[n] || fi == nil {
+			continue
+		}
+		dense := true
+		for k := 0; k < len(obs); k++ {
+			if _, ok := obs[k]; !ok {
+				dense = false
+			}
+		}
+		if !dense || len(obs) > 400 {
+			c.Count("pdf:FV skipped (unused code or >400 codes)")
+			continue
+		}
+		var line strings.Builder
+		fmt.Fprintf(&line, "FV %d %d", fvUpm[n], len(obs))
+		for k := 0; k < len(obs); k++ {
+			fmt.Fprintf(&line, " %d %d", obs[k].adv, obs[k].uni)
+		}
+		fmt.Fprintf(&line, " | %s | %s", wCanon(fi.DW, fi.W), tuCanon(fi.Ranges, fi.Chars))
+		c.Case(line.String(), "=", "ok")
+		c.Count("pdf:font objects judged by the Lean verdict")
 	}
 }
 
